@@ -434,7 +434,8 @@ func propTraversal(t *vt.T) {
 				}
 			}
 		}
-		if allowedSrc && plainSource(source) && status == 200 {
+		if allowedSrc && plainSource(source) {
+			// (whatever the answer was, or if none came in time: the receiver may still act on it)
 			earlier = append(earlier, allowedPrefixes(source)...)
 		}
 	}
@@ -538,11 +539,11 @@ func propAuth(t *vt.T) {
 		after := s.settle()
 		t.Note("%s -> %d %v (allowed=%v)", r.desc, status, err, allowed)
 		if allowed {
-			told = ask() // an authorised request may change what the sender is told
 			// validation and delivery of what it sent run behind the answer: let them finish, and
 			// remember whose directories a straggler would show up in
 			time.Sleep(60 * time.Millisecond)
 			s.settle()
+			told = ask() // an authorised request may change what the sender is told
 			if source != "" {
 				allowedEarlier = append(allowedEarlier, source)
 			}
